@@ -122,6 +122,11 @@ def run(tier, seed):
             ops.append(["antichain", [[e[0], e[1], 0 if rng.random() < p0 else 1] for e in AE]])
         ops.append(["antichain", [[e[0], e[1], rng.choice([0, 0, 1, 3])] for e in AE]])
         insts.append({"kind": "dag", "nodes": u["nodes"], "edges": u["edges"], "ew": u["ew"], "starts": [], "ends": [], "ops": ops})
+    # greedy peeling of FRACTIONAL flows (planted weights / 2, / 4): residual bottlenecks between 0 and 1 are flow like any other
+    for u in C.spread(dag, 40 if quick else 495):
+        for wden in (2, 4):
+            insts.append({"kind": "dag", "nodes": u["nodes"], "edges": u["edges"], "ew": u["ew"], "wden": wden, "starts": [], "ends": [],
+                          "ops": [["bottleneck"], ["decompose"], ["reach", u["nodes"][0]], ["decompose"]]})
     C.with_ids(insts)
     recs = P.drive_substrate(insts)
     bad_ctor = [r for r in recs if r["ctor_exc"] != "none"]
